@@ -6,7 +6,7 @@ def namegate_stages(ctx):
     cfgs = ["NameGate.t2.cfg"] if ctx.tier == "quick" else ["NameGate.t2.cfg", "NameGate.t3.cfg"]
     for cfg in cfgs:
         graph_stage(ctx, "namegate-" + cfg.split(".")[1], "MC_NameGate.tla", cfg, "namegate", NAMEGATE_ADAPTERS,
-                    ["--names", "a,f,a\\b,c:d,..x", "--depth", "2"], workers=4, frontier=True)
+                    ["--names", "a,f,a\\b,c:d,..x", "--depth", "2" if "t2" in cfg else "3"], workers=4, frontier=True)
 
 
 CHECKS["C04"] = namegate_stages
